@@ -36,7 +36,8 @@ func (g *Grammar) Nullable() []bool {
 			case "?", "*":
 				return true
 			case "!":
-				return false
+				// non-empty means "yielded a value": a capture or nested production that matched nothing yields one
+				return yieldsNullWith(g, null, e.Kids[0])
 			}
 			return exprNull(e.Kids[0])
 		case KCap:
@@ -153,6 +154,35 @@ func (g *Grammar) LeftRecursive() (bool, int) {
 	return false, -1
 }
 
+// yieldsNullWith: can e match without consuming a token and still yield a value? That is what a ( ... )! group
+// counts: a capture of something that matched nothing, a nested production that matched nothing, a reference to EOF
+// and the empty literal all yield a value without consuming.
+func yieldsNullWith(g *Grammar, null []bool, e *Expr) bool {
+	switch e.Kind {
+	case KRef, KLit, KCap, KSub:
+		return exprNullWith(g, null, e)
+	case KSeq:
+		any := false
+		for _, k := range e.Kids {
+			if !exprNullWith(g, null, k) {
+				return false
+			}
+			any = any || yieldsNullWith(g, null, k)
+		}
+		return any
+	case KAlt:
+		for _, k := range e.Kids {
+			if yieldsNullWith(g, null, k) {
+				return true
+			}
+		}
+		return false
+	case KGroup:
+		return yieldsNullWith(g, null, e.Kids[0])
+	}
+	return false
+}
+
 func exprNullWith(g *Grammar, null []bool, e *Expr) bool {
 	switch e.Kind {
 	case KRef:
@@ -182,7 +212,7 @@ func exprNullWith(g *Grammar, null []bool, e *Expr) bool {
 		case "?", "*":
 			return true
 		case "!":
-			return false
+			return yieldsNullWith(g, null, e.Kids[0])
 		}
 		return exprNullWith(g, null, e.Kids[0])
 	case KCap:
@@ -291,7 +321,16 @@ func GenRecSystem(t *rapid.T) (*Grammar, map[string]bool) {
 			}
 			return SubU(u)
 		}
-		switch rapid.IntRange(0, 12).Draw(t, "np") {
+		switch rapid.IntRange(0, 14).Draw(t, "np") {
+		case 13, 14:
+			// a ( ... )! group is satisfied by a value, not by a token: a capture of something optional that matched
+			// nothing yields one -- ( @( x? ) )! , ( @( x* ) y? )!
+			used["after_nonempty_group_satisfied_by_an_empty_capture"] = true
+			body := Cap(Group(rapid.SampledFrom([]string{"?", "*"}).Draw(t, "necap"), c.leaf()))
+			if rapid.Bool().Draw(t, "netail") {
+				return Group("!", Seq(body, Group("?", leaf())))
+			}
+			return Group("!", body)
 		case 11, 12:
 			// one or more of something optional, in the bracket spelling with the modifier right behind it: [ x ]+ , { x }+
 			used["after_plus_of_bracket_group"] = true
